@@ -3,7 +3,7 @@
    7-24-25 triangle), range 32: every normalised distance is the rational d/32, so the covariance matrix of the
    closed form is exact in Q. *)
 From Coq Require Import List ZArith QArith Bool.
-From Gst Require Import lib.QAux C03.Table C03.IEval C03.Model.
+From Gst Require Import lib.QAux lib.LinAlgQ C03.Table C03.IEval C03.Model.
 Import ListNotations.
 Local Open Scope Q_scope.
 
@@ -22,3 +22,7 @@ Definition penta_K : list (list Q) := map (map point_val) penta_matrix_enc.
 (* every normalised distance of the configuration is an exact square root *)
 Definition penta_all_exact : bool :=
   forallb (fun p => forallb (fun q => qsqrt_exact (h2_of (penta_cova penta_range) p q)) penta_pts) penta_pts.
+
+(* data of the non-vacuity examples of Properties.v *)
+Definition ex_B (i l : nat) : Q := inject_Z (Z.of_nat (i + 2 * l)).
+Definition ex_gram (a b : nat) : Q := LinAlgQ.sumn 2 (fun l => ex_B a l * ex_B b l).
